@@ -35,9 +35,16 @@ Definition observe (s : shared) (p : pc) : list Z :=
   | PoRead _ _ _ _ => [2]
   | PoClear _ _ _ _ _ => [2]
   | PoRelease pos seq _ _ _ => [1; EvStoreU32; loc_slot s pos; u32 (seq + (cap s - 1)); 0; 0]
+  | ObsFirst KIsEmpty => [1; EvLoadU32; LocHead; 0; 0; u32 (hd s)]
+  | ObsFirst _ => [1; EvLoadU32; LocTail; 0; 0; u32 (tl s)]
+  | ObsSecond KIsEmpty _ => [1; EvLoadU32; LocTail; 0; 0; u32 (tl s)]
+  | ObsSecond _ _ => [1; EvLoadU32; LocHead; 0; 0; u32 (hd s)]
   end.
 
-Definition dec_op (z : Z) : op := if z =? 0 then OpPop else OpPush z.
+(* 0 = Pop, v > 0 = Push v, -1 = Len, -2 = IsEmpty, -3 = IsFull *)
+Definition dec_op (z : Z) : op :=
+  if z =? 0 then OpPop else if z =? -1 then OpObs KLen else if z =? -2 then OpObs KIsEmpty else if z =? -3 then OpObs KIsFull
+  else OpPush z.
 
 Fixpoint updl {A} (l : list A) (i : nat) (x : A) : list A :=
   match l, i with [], _ => [] | _ :: t, O => x :: t | h :: t, S j => h :: updl t j x end.
@@ -87,25 +94,12 @@ Fixpoint go (c : config) (progs : list (list Z)) (sched : list Z) (acc : list Z)
       end
   end.
 
-(* the sequential state after [base] pairs and [fill] pushes *)
-Definition fill_val (j : Z) : Z := 9001 + j.
-Definition seq_state (k base fill : Z) (n : nat) : config :=
-  let c := 2 ^ k in
-  let slot i :=       (* the unique p in [base, base + c) with p mod c = i *)
-    let p := base + ((i - base) mod c) in
-    if p <? base + fill then ((Some (fill_val (p - base)), u32 (p + 1)), Published p)
-    else ((None, u32 p), Free p) in
-  let idx := map Z.of_nat (seq 0 (Z.to_nat c)) in
-  let vs := map fill_val (map Z.of_nat (seq 0 (Z.to_nat fill))) in
-  {| sh := {| slots := map (fun i => fst (slot i)) idx; hd := base; tl := base + fill; cap := c;
-              q := vs; ph := map (fun i => snd (slot i)) idx; lin := map LPush vs |};
-     ths := repeat Idle n; hist := [] |}.
-
 Definition enc_res (r : res) : list Z :=
   match r with
   | RPush b => [1; zb b]
   | RPop (Some v) _ => [2; 1; v]
   | RPop None _ => [2; 0; 0]
+  | RObs _ z _ => [3; z]
   end.
 Definition results_of (h : list (nat * res)) (i : nat) : list Z :=
   flat_map (fun e => if Nat.eqb (fst e) i then enc_res (snd e) else []) h.
@@ -171,13 +165,13 @@ Fixpoint judge_steps (fuel : nat) (cap : Z) (progs : list (list Z)) (s : jstate)
       end
   end.
 
-Fixpoint check_threads (ths : list tstate) (l : list Z) : bool * list Z :=
+Fixpoint check_threads (cap : Z) (ths : list tstate) (l : list Z) : bool * list Z :=
   match ths with
   | [] => (true, l)
   | t :: rest =>
       let (res, l') := get_list l in
-      let ok := check_results (rev (t_done (finish t))) res in
-      let (ok', l'') := check_threads rest l' in (ok && ok', l'')
+      let ok := check_results cap (rev (t_done (finish t))) res in
+      let (ok', l'') := check_threads cap rest l' in (ok && ok', l'')
   end.
 
 (* final quiescent state: counters differ by the content's length and the slots hold it in order *)
@@ -202,7 +196,7 @@ Definition judge (args : list Z) : list Z :=
       let q0 := map fill_val (map Z.of_nat (seq 0 (Z.to_nat fill))) in
       let s0 := {| j_q := q0; j_ths := repeat {| t_next := O; t_cur := None; t_done := [] |} n; j_ok := true |} in
       let (s, rest) := judge_steps (length out + 1) cap progs s0 out in
-      let (okr, rest') := check_threads (j_ths s) rest in
+      let (okr, rest') := check_threads cap (j_ths s) rest in
       [zb (j_ok s && okr && check_final cap (j_q s) rest')]
   | _ => [0]
   end.
